@@ -56,6 +56,8 @@ def gen_policy(rng, o):
     p["handler_p"] = rng.random() < o.get("p_handler", 0.25)
     p["bs_p"] = rng.random() < o.get("p_bs", 0.3)
     p["sleeper_p"] = rng.random() < 0.4
+    # attempt_timeout_s: 96 ticks (1.5 s) is longer than every scripted duration, so it fires only for operations scripted to hang
+    p["att_timeout"] = 96 if rng.random() < o.get("p_att_timeout", 0.15) else None
     return p
 
 
@@ -80,7 +82,7 @@ def gen_env(rng, p, c, o):
             r = r - 0.5
         dur = rng.choice(durs)
         klass = rng.choice(pool) if rng.random() < 0.85 else rng.choice(KLASSES)
-        ra = rng.choice([None, None, None, 0, 2, 7, 10**7])
+        ra = rng.choice([None, None, None, 0, 2, 7, 10**7, -1, -320])
         last = i == n_ops - 1
         if r < o.get("p_fail_exc", 0.5):
             ops.append(["R", dur, klass, ra])
@@ -94,6 +96,17 @@ def gen_env(rng, p, c, o):
                 ops.append(["C", dur, rng.choice(o.get("cancel_kinds", list(CK))), None])
             else:
                 ops.append([kind, dur, None, None])
+    if p.get("att_timeout") is not None:
+        # the wrapper must be transparent: the operation's own TimeoutError ("te") surfaces unchanged; an operation that
+        # hangs is an exception failure after exactly att_timeout ticks (sync: a real 1.5 s wait, so kept rare)
+        for op in ops:
+            if op[0] == "R":
+                r = rng.random()
+                if r < 0.35:
+                    op.append("te")
+                elif r < 0.35 + (0.25 if o.get("_is_async") else 0.03):
+                    op[1] = p["att_timeout"]
+                    op.append("hang")
     svals = [0, 0, 1, 1, 2, 3, 5, 8, dl, dl + 3, 2**20, -1, -5, "nan", "inf", "-inf"]
     env = {
         "ops": ops,
@@ -126,6 +139,7 @@ def gen_env(rng, p, c, o):
 
 def gen_call(rng, pidx, p, o, entries=None):
     c = dict((k, p[k]) for k in POLICY_FIELDS)
+    c["att_timeout"] = p.get("att_timeout")
     c["has_abort"] = rng.random() < o.get("p_abort", 0.4)
     c["handler_c"] = rng.random() < o.get("p_handler", 0.25)
     c["bs_c"] = rng.random() < o.get("p_bs", 0.3)
@@ -149,7 +163,7 @@ def gen_call(rng, pidx, p, o, entries=None):
                    "suspend_sleep": rng.random() < 0.5, "sync_hooks": rng.random() < 0.3}
     variant["bare"] = rng.randrange(2)
     variant["tl_object"] = rng.random() < 0.3
-    env = gen_env(rng, p, c, o)
+    env = gen_env(rng, p, c, dict(o, _is_async=is_async))
     if is_async and (env["bs_cancel"] or env["sleep_cancel"]) and rng.random() < 0.7:
         variant.update(throw=True, suspend_bs=True, suspend_sleep=True, sync_hooks=False)
     return {"policy": pidx, "entry": entry, "async": is_async, "mode": mode, "cfg": c, "env": env,
@@ -164,7 +178,17 @@ def cap_mix_sequence(rng, o):
     j = rng.choice([x for x in RETRYABLE if x != k])
     cap = rng.choice([0, 1, 1, 2])
     p.update(max_attempts=rng.choice([6, 8, 9]), deadline=2**33, per_class={}, max_unknown=None, strat_default=False, strat_tab={})
-    if k == "UNKNOWN" and rng.random() < 0.7:
+    if rng.random() < 0.3:
+        k = "UNKNOWN"
+        j = rng.choice([x for x in RETRYABLE if x != k])
+    if k == "UNKNOWN" and rng.random() < 0.5:
+        # both caps on UNKNOWN at once: each must hold whichever is the smaller
+        lo, hi = cap, cap + rng.choice([1, 2, 3])
+        if rng.random() < 0.5:
+            p["max_unknown"], p["per_class"] = lo, {k: hi}
+        else:
+            p["max_unknown"], p["per_class"] = hi, {k: lo}
+    elif k == "UNKNOWN" and rng.random() < 0.7:
         p["max_unknown"] = cap
     else:
         p["per_class"] = {k: cap}
@@ -265,7 +289,8 @@ def g_cfg(c, budget):
 def g_tags(t, decorator=False):
     extra = "extra" in t or "state" in t
     klass = t.get("class")
-    ok_err = t.get("err") in (None, "ScriptedError", "CircuitOpenError")
+    # ScriptedTimeout: the operation's own TimeoutError; TimeoutError: the runner's, for an attempt scripted to hang
+    ok_err = t.get("err") in (None, "ScriptedError", "CircuitOpenError", "ScriptedTimeout", "TimeoutError")
     ok_op = t.get("operation") in (None, "opname")
     return G.rec(
         t_class=G.opt(klass if klass in KLASSES else None),
@@ -468,7 +493,7 @@ def shrink_seq(pid, seq, fails):
             if len(c["env"]["ops"]) > 1:
                 t = copy.deepcopy(s); t["calls"][j]["env"]["ops"] = c["env"]["ops"][:-1]; out.append(t)
             for i, op in enumerate(c["env"]["ops"]):
-                if op[1]:
+                if op[1] and len(op) < 5:
                     t = copy.deepcopy(s); t["calls"][j]["env"]["ops"][i][1] = 0; out.append(t)
         if s["t0"]:
             t = copy.deepcopy(s); t["t0"] = 0; out.append(t)
